@@ -14,7 +14,7 @@ func init() {
 	register("C03", "other", []string{
 		"decides the structural necessary conditions (every token gets a disposition, pass-through appends happen at most once per token, verbatim, in iterator order, and survive command descent); does not decide that 'consumed' dispositions consume the right tokens (C01/C02)",
 		"sliceiterator.Iterator is only used through its methods (checked: R03.6) and go/ssa models the control flow faithfully",
-	}, rC03Writers, rC03Once, rC03Handoff, rC03Typestate, rC03ParseReturn, rC03Iterator)
+	}, rC03Writers, rC03Once, rC03Handoff, typestateRule("R03.4"), rC03ParseReturn, rC03Iterator, passThroughRule("R03.7"))
 }
 
 // parserOrFail builds the model for parseCLIArgs and reports unresolved anchors as undecided.
@@ -304,8 +304,12 @@ func (m *parserModel) accumulators() (out []*typesVar) {
 }
 
 // R03.4: no token is dropped (typestate) + lemmas L1, L2 + helper summary.
-func rC03Typestate(w *World, r *Report) {
-	ru := r.Rule("R03.4", "token typestate: after every iterator advance the new current token receives a disposition (saved as value, appended verbatim, bulk-copied, recorded as unknown, consumed as command name, terminator, error return) before the next advance or a success return", 3)
+func typestateRule(id string) func(w *World, r *Report) {
+	return func(w *World, r *Report) { typestateRuleImpl(id, w, r) }
+}
+
+func typestateRuleImpl(id string, w *World, r *Report) {
+	ru := r.Rule(id, "token typestate: after every iterator advance the new current token receives a disposition (saved as value, appended verbatim, bulk-copied, recorded as unknown, consumed as command name, terminator, error return) before the next advance or a success return", 3)
 	m := parserOrFail(w, ru)
 	if m == nil {
 		return
